@@ -37,7 +37,8 @@ LEVEL_TEXT = ("Unbounded Coq theorems (Props/C17.v, statements in C17/Spec.v) ab
               "it is reaches exactly the walks whose triples are all tested against x = the neighbours of x plus one collider step, "
               "always inside the walk definition). pds_exact_refuted / pds_walk_path_differ: kernel computation on a 5-node witness, "
               "'exactly' is false for the simple-path reading. The link to /repo is differential correspondence (tie K) on MARKS(n) "
-              "n<=3 exhaustively, sampled n=4,5, forced collider / triangle chains n<=8, stationary 2-variable time-series PAGs.")
+              "n<=3 exhaustively, sampled n=4,5, forced collider / triangle chains n<=8, stationary 2-variable time-series PAGs."
+              " Tie (T) for the local predicates: translator/predicates.py re-translates is_definite_collider and the triple test of pds (is_def_collider or is_triangle) into Gen/Gen_Preds.v on every run; repo_pred_pds / repo_pred_pds_next prove by complete case analysis (18 x 18 x 18 pair states a PAG can hold) that they are collider3 / triple_ok and that pds_next / pds_asis_next filter by the generated test; 4096 cells of is_definite_collider are compared with the real function and 5184 cells of the inline test are observed inside the running pds by a line tracer each run (replayable).")
 LEVEL_NOTE = ("Verdict per returned set S: simple-path definition not within S => VIOLATION; S not within the walk definition => "
               "VIOLATION; S between the two => known finding (over-approximation). /repo as it is enqueues (prev_node, next_node) "
               "and returns sets SMALLER than the definition (2->1<->0<->3: pds(2)={0,1}); the one-line repair is "
